@@ -364,10 +364,18 @@ bool vfps::ProgramOptions::parse(int ac, char** av)
                                      + _configfile + "\".";
                 Display::printText(message);
                 store(parse_config_file(ifs, _cfgfileopts), _vm);
-                notify(_vm);
-                if(_vm.count("SyncFreq")) {
-                    _vm.at("SynchrotronFrequency").value()
-                            = _vm["SyncFreq"].value();
+                // legacy names stand in for the current names
+                // unless those have been given explicitly
+                for (const auto& alias : {
+                        std::make_pair("RFVoltage","AcceleratingVoltage"),
+                        std::make_pair("SyncFreq","SynchrotronFrequency"),
+                        std::make_pair("steps","StepsPerTs")}) {
+                    if (_vm.count(alias.first)) {
+                        if (_vm[alias.second].defaulted()) {
+                            _vm.at(alias.second) = _vm.at(alias.first);
+                        }
+                        _vm.erase(alias.first);
+                    }
                 }
                 notify(_vm);
             }
